@@ -477,6 +477,16 @@ func (c *c08Case) shadowCheck(in *c08Inst, where string) {
 				c.viol("c08-read-not-last-effective-write", fmt.Sprintf("%s: instance %d account %d slot %d reads %x, the last non-reverted write was %d", where, in.id, a, k, got.Bytes()[28:], want[a][k]))
 				return
 			}
+			// theorem C08_committed_eq_state_untouched: an account the current transaction has not
+			// touched (not in journal.dirties) reads the same through GetCommittedState — unless the
+			// instance descends from a mid-transaction copy
+			if _, dirty := in.s.journal.dirties[c08Addr(a)]; !dirty && in.replayable {
+				if cm := in.s.GetCommittedState(c08Addr(a), c08Key(k)); cm != got {
+					c.viol("c08-committed-differs-untouched", fmt.Sprintf("%s: instance %d account %d slot %d: GetState %x GetCommittedState %x, account not touched by the open transaction", where, in.id, a, k, got.Bytes()[28:], cm.Bytes()[28:]))
+					return
+				}
+				c.o.Stat("oracle:committed-eq-state")
+			}
 		}
 		c.o.Stat("oracle:shadow-storage")
 	}
@@ -684,6 +694,11 @@ func (c *c08Case) commit(in *c08Inst, del bool, observe bool) {
 	o.Stat("oracle:root-content")
 	// (iii) read back through the trie and through the snapshot tree
 	want := c08AccountsOnly(o, in.s)
+	// the refund counter is committed state in the sense of C08_readback: zero after Commit, as in a
+	// reopened state, unless the instance descends from a mid-transaction copy
+	if in.replayable && in.s.GetRefund() != 0 {
+		c.viol("c08-readback", fmt.Sprintf("refund counter %d after Commit, a state reopened at the root has 0", in.s.GetRefund()))
+	}
 	trees := []*snapshot.Tree{nil}
 	if c.snaps != nil {
 		trees = append(trees, c.snaps)
@@ -708,8 +723,13 @@ func (c *c08Case) commit(in *c08Inst, del bool, observe bool) {
 		probe := c.r.Intn(c08U)
 		re.GetCommittedState(c08Addr(probe), c08Key(c.r.Intn(c08U)))
 		got := c08AccountsOnly(o, re)
-		// a reopened state has no suicide marks; the committing instance may keep marks only on copies
-		if got != strings.ReplaceAll(want, "s1b", "s0b") {
+		// a reopened state has no suicide marks; the committing instance keeps none either (theorem
+		// C08_readback) unless it descends from a mid-transaction copy (C08_readback_midtx_counterexample)
+		exp := want
+		if !in.replayable {
+			exp = strings.ReplaceAll(want, "s1b", "s0b")
+		}
+		if got != exp {
 			c.viol("c08-readback", fmt.Sprintf("via %s: reopened state differs: committed %s reopened %s", via, want, got))
 		}
 		o.Stat("oracle:readback-" + via)
@@ -962,9 +982,13 @@ func c08RunCase(o *vfOut, r *vfRand, idx int) {
 			if in.lastAPI != ni.lastAPI {
 				if in.replayable {
 					c.viol("c08-copy-differs", fmt.Sprintf("original %s copy %s", in.lastAPI, ni.lastAPI))
+				} else if strings.ReplaceAll(in.lastAPI, "s1b", "s0b") != strings.ReplaceAll(ni.lastAPI, "s1b", "s0b") {
+					// theorem C08_copy_obs_reachAny: even then every getter but HasSuicided agrees
+					c.viol("c08-copy-differs", fmt.Sprintf("beyond suicide marks: original %s copy %s", in.lastAPI, ni.lastAPI))
 				} else {
 					// descendants of a mid-transaction copy may keep a suicide mark that a further copy
-					// (re-read from the trie) does not have; outside the contract of Copy (see notes)
+					// (re-read from the trie) does not have; outside the contract of Copy (see notes,
+					// theorem C08_copy_obs_midtx_counterexample)
 					o.Stat("note:copy-of-midtx-copy-differs")
 				}
 			}
